@@ -76,7 +76,8 @@ class RRELBase:
             lookup_list: reference name to be looked up
             allowed: a callable to "allow" to visit an object
                 in order to prevent infinite recursion loops.
-                it is called with allowed(obj, lookup_list, RREL-entry).
+                it is called with
+                allowed(obj, lookup_list, RREL-entry, first_element).
             first_element: True, if we did not process any
                 model element (else False). This is used to
                 distinguish RRELs starting at model level (e.g.,
@@ -86,7 +87,7 @@ class RRELBase:
             intermediate matches. The returned obj can be
             Postponed.
         """
-        if not allowed(obj, lookup_list, self):  # also adjusts visited objs
+        if not allowed(obj, lookup_list, self, first_element):  # adjusts visited
             return  # recursion stopper
 
         obj, lookup_list, matched_path = self.apply(
@@ -260,7 +261,7 @@ class RRELBrackets(RRELBase):
     def get_next_matches(
         self, obj, lookup_list, allowed, matched_path, first_element=False
     ):
-        if not allowed(obj, lookup_list, self):  # also adjusts visited objs
+        if not allowed(obj, lookup_list, self, first_element):  # adjusts visited
             return  # recursion stopper
         yield from self.seq.get_next_matches(
             obj, lookup_list, allowed, matched_path, first_element
@@ -323,7 +324,7 @@ class RRELSequence(RRELBase):
     def get_next_matches(
         self, obj, lookup_list, allowed, matched_path, first_element=False
     ):
-        if not allowed(obj, lookup_list, self):  # also adjusts visited objs
+        if not allowed(obj, lookup_list, self, first_element):  # adjusts visited
             return  # recursion stopper
         for ip in self.paths:
             yield from ip.get_next_matches(
@@ -356,7 +357,7 @@ class RRELZeroOrMore(RRELBase):
 
         def get_from_zero_or_more(obj, lookup_list, matched_path, first_element=False):
             assert self.start_locally() or self.start_at_root()  # or, not xor
-            if not allowed(obj, lookup_list, self):  # also adjusts visited objs
+            if not allowed(obj, lookup_list, self, first_element):  # adjusts visited
                 return  # recursion stopper
             if first_element:
                 if self.start_locally():
@@ -596,11 +597,14 @@ def find_object_with_path(obj, lookup_list, rrel_tree, obj_cls=None, split_strin
         lookup_list = list(filter(lambda x: len(x) > 0, lookup_list))
     visited = [set() for _ in range(len(lookup_list) + 1)]
 
-    def allowed(obj, lookup_list, e):
-        if (id(obj), id(e)) in visited[len(lookup_list)]:
+    def allowed(obj, lookup_list, e, first_element=False):
+        # first_element is part of the key: the same node evaluates differently
+        # (model root vs. current object) when it is the first element.
+        key = (id(obj), id(e), bool(first_element))
+        if key in visited[len(lookup_list)]:
             return False
         else:
-            visited[len(lookup_list)].add((id(obj), id(e)))
+            visited[len(lookup_list)].add(key)
             return True
 
     for p in rrel_tree.paths:
